@@ -577,9 +577,10 @@ where
         match (self.mapper)(out, span) {
             Ok(out) => {
                 // If successful, reinsert the original alt and then apply the new alt on top of it, since both are valid
+                // (at the position the inner parser recorded it for, so that it still merges with later failures there)
                 inp.errors.alt = old_alt;
                 if let Some(new_alt) = new_alt {
-                    inp.add_alt_err(&before.inner, new_alt.err);
+                    inp.add_alt_err(&new_alt.pos, new_alt.err);
                 }
                 Ok(M::bind(|| out))
             }
